@@ -286,7 +286,7 @@ package algo
 //@ func FuzzyMatchV2
 //@ property C02 C05
 //@ requires !DEBUG
-//@ cut @"f0 := int(F[0])" phases 3 and 4 (matrix fill, back-trace)
+//@ cut @"pos := posArray(withPos, M)" phase 4 (back-trace)
 //@ track init int16 int32
 //@ requires input != nil && validChars(input) && validRunes(pattern) && len(pattern) <= 1000
 //@ requires slab != nil ==> cap(slab.I16) <= 1000000000 && cap(slab.I32) <= 1000000000 && slab.I16.off == 0 && slab.I32.off == 0
@@ -299,9 +299,30 @@ package algo
 //@   writes H0[*], C0[*], B[*], F[*], T[*]
 //@   invariant N == maxIdx - minIdx && 0 <= minIdx && maxIdx <= clen(input) && 1 <= N && M == len(pattern) && 1 <= M && len(T) == N && len(H0) == N && len(C0) == N && len(B) == N && len(F) == M
 //@   invariant 0 <= pidx && pidx <= M && 0 <= lastIdx && lastIdx <= iter && (pidx > 0 ==> lastIdx < iter)
-//@   invariant forall(k, 0, pidx, 0 <= F[k] && F[k] <= lastIdx) && forall(k, 1, pidx, F[k-1] < F[k]) && init(F, 0, pidx)
+//@   invariant forall(k, 0, pidx, 0 <= F[k] && F[k] <= lastIdx) && forall(k, 1, pidx, F[k-1] < F[k]) && forall(k, 1, pidx, F[0] < F[k]) && init(F, 0, pidx)
+//@   invariant M != 1 ==> maxScore == 0 && maxScorePos == 0
 //@   invariant init(H0, 0, iter) && init(C0, 0, iter) && init(B, 0, iter) && init(T, 0, N)
 //@   invariant forall(k, 0, iter, 0 <= H0[k] && H0[k] <= 36 && 0 <= B[k] && B[k] <= 10 && 0 <= C0[k] && C0[k] <= 1)
 //@   invariant 0 <= prevClass && prevClass <= 6 && 0 <= prevH0 && prevH0 <= 36 && 0 <= maxScore && maxScore <= 36 && 0 <= maxScorePos && maxScorePos <= iter && maxScorePos < N
 //@   invariant pchar0 == pattern[0] && pchar == pattern[pidx < M ? pidx : M - 1]
 //@   invariant forall(k, iter, N, 0 <= T[k] && T[k] <= 1114111)
+//@ loop 2
+//@   writes H[*], C[*]
+//@   invariant M == len(pattern) && 2 <= M && len(F) == M && len(T) == N && len(B) == N && len(H) == width * M && len(C) == width * M
+//@   invariant f0 == F[0] && 0 <= f0 && width == lastIdx - f0 + 1 && 1 <= width && lastIdx < N && len(Fsub) == M - 1 && len(Psub) == M - 1
+//@   invariant Fsub == F[1:] && Psub == pattern[1:M]
+//@   invariant init(H, iter * width + F[iter] - f0, (iter + 1) * width) && init(C, iter * width + F[iter] - f0, (iter + 1) * width)
+//@   invariant forall(k, iter * width + F[iter] - f0, (iter + 1) * width, 0 <= H[k] && H[k] <= 26 * iter + 36 && 0 <= C[k] && C[k] <= iter + 1 && C[k] <= k - iter * width + 1)
+//@   invariant 0 <= maxScore && maxScore <= 26 * iter + 36 && 0 <= maxScorePos && maxScorePos <= lastIdx
+//@   use mul_mono(iter + 2, M, width)
+//@ loop 3
+//@   writes Hsub[*], Csub[*]
+//@   invariant 1 <= pidx && pidx < M && row == pidx * width && f0 < f && f <= lastIdx && len(Tsub) == lastIdx + 1 - f
+//@   invariant Tsub == T[f:lastIdx+1] && Bsub == B[f:lastIdx+1] && Hsub == H[row+f-f0:row+f-f0+len(Tsub)] && Hleft == H[row+f-f0-1:row+f-f0-1+len(Tsub)] && Hdiag == H[row+f-f0-1-width:row+f-f0-1-width+len(Tsub)]
+//@   invariant Csub == C[row+f-f0:row+f-f0+len(Tsub)] && Cdiag == C[row+f-f0-1-width:row+f-f0-1-width+len(Tsub)]
+//@   invariant init(Hleft, 0, iter + 1) && init(Csub, 0, iter)
+//@   invariant init(Hdiag, 0, len(Tsub)) && init(Cdiag, 0, len(Tsub))
+//@   invariant forall(k, 0, len(Tsub), 0 <= Hdiag[k] && Hdiag[k] <= 26 * (pidx - 1) + 36 && 0 <= Cdiag[k] && Cdiag[k] <= pidx && Cdiag[k] <= f - f0 + k)
+//@   invariant forall(k, 0, iter + 1, 0 <= Hleft[k] && Hleft[k] <= 26 * pidx + 36)
+//@   invariant forall(k, 0, iter, 0 <= Csub[k] && Csub[k] <= pidx + 1 && Csub[k] <= f - f0 + k + 1)
+//@   invariant 0 <= maxScore && maxScore <= 26 * pidx + 36 && 0 <= maxScorePos && maxScorePos <= lastIdx
